@@ -1,33 +1,33 @@
 SPECIFICATION MCSpec
 CONSTANTS
-  SetupIds = {1}
+  SetupIds = {1,2,3}
   RegIds = {1,2}
   FileIds = {1,2}
   CliIds = {1,2}
-  SrvIds = {1,2}
+  SrvIds = {1,2,3}
   TrackObs = TRUE
   TrackDeps = FALSE
   Dev = "none"
-  SetupPlan <- Tamper_SetupPlan
-  RegPlan <- Tamper_RegPlan
-  RegIdus <- Tamper_RegIdus
-  RegIdss <- Tamper_RegIdss
-  RegKsfs <- Tamper_RegKsfs
-  CliPw <- Tamper_CliPw
-  SrvSetups <- Tamper_SrvSetups
-  SrvRecs <- Tamper_SrvRecs
-  SrvCids <- Tamper_SrvCids
-  SrvCtxs <- Tamper_SrvCtxs
-  SrvIdus <- Tamper_SrvIdus
-  SrvIdss <- Tamper_SrvIdss
-  CliCtxs <- Tamper_CliCtxs
-  CliIdus <- Tamper_CliIdus
-  CliIdss <- Tamper_CliIdss
-  CliKsfs <- Tamper_CliKsfs
-  MutPlan <- Tamper_MutPlan
-  Splice = TRUE
+  SetupPlan <- Ext_SetupPlan
+  RegPlan <- Ext_RegPlan
+  RegIdus <- Ext_RegIdus
+  RegIdss <- Ext_RegIdss
+  RegKsfs <- Ext_RegKsfs
+  CliPw <- Ext_CliPw
+  SrvSetups <- Ext_SrvSetups
+  SrvRecs <- Ext_SrvRecs
+  SrvCids <- Ext_SrvCids
+  SrvCtxs <- Ext_SrvCtxs
+  SrvIdus <- Ext_SrvIdus
+  SrvIdss <- Ext_SrvIdss
+  CliCtxs <- Ext_CliCtxs
+  CliIdus <- Ext_CliIdus
+  CliIdss <- Ext_CliIdss
+  CliKsfs <- Ext_CliKsfs
+  MutPlan <- Ext_MutPlan
+  Splice = FALSE
   Reloads = FALSE
-  ExtFail = FALSE
+  ExtFail = TRUE
   MaxFree = 7
 INVARIANT Agreement
 INVARIANT ClientAcceptsOnlyMatched
